@@ -189,11 +189,12 @@ def c02_5(ck, prog):
                             'order' % (c['callee'], estr(bo)))
     if n < 10:
         raise AnalysisBroken('only %d marshalling calls on header/body found' % n)
-    from rules.C12 import c12_1, c12_2
+    from rules.C12 import c12_1, c12_2, c12_5
     save = ck.rule
     ck.rule = lambda *a, **k: r
     try:
         c12_1(ck, prog)
+        c12_5(ck, prog)       # a built message names each header field with its table type
         # getters of a message under construction read through the field-position cache: it must not
         # survive a header edit that moved bytes (shared with C12.2)
         c12_2(ck, prog)
